@@ -339,6 +339,12 @@ func (r *FileRestorer) updateImports() error {
 
 		alias := effectiveAlias[path]
 
+		if path == "C" {
+			// the cgo pseudo package is never resolved or renamed
+			r.packageNames[path], aliases[path] = "C", ""
+			continue
+		}
+
 		if alias == "." || alias == "_" {
 			// no conflict checking for dot-imports or anonymous imports
 			r.packageNames[path], aliases[path] = "", alias
